@@ -14,9 +14,30 @@ import (
 // VerifDump renders the skip list (level-0 chain with the height of every node) and the Dict.
 func (ss *SortedSet) VerifDump() string {
 	var sb strings.Builder
-	fmt.Fprintf(&sb, "len=%d level=%d chain:", ss.length, ss.level)
+	fmt.Fprintf(&sb, "len=%d level=%d hdr", ss.length, ss.level)
+	// spans that queries can read (those of links ending in a node) are part of the state: two
+	// histories reaching the same members with different spans are different states
+	spans := func(x *SortedSetNode, n int) string {
+		var p []string
+		for i := 0; i < n && i < len(x.level); i++ {
+			if x.level[i].forward != nil {
+				p = append(p, fmt.Sprint(x.level[i].span))
+			} else {
+				p = append(p, "-")
+			}
+		}
+		return strings.Join(p, ",")
+	}
+	fmt.Fprintf(&sb, "[%s] chain:", spans(ss.header, ss.level))
 	for x := ss.header.level[0].forward; x != nil; x = x.level[0].forward {
-		fmt.Fprintf(&sb, " (%q %v %q h%d)", x.key, float64(x.score), x.Value, len(x.level))
+		bk := "nil"
+		if x.backward != nil {
+			bk = x.backward.key
+		}
+		fmt.Fprintf(&sb, " (%q %v %q h%d [%s] bk=%q)", x.key, float64(x.score), x.Value, len(x.level), spans(x, len(x.level)), bk)
+	}
+	if ss.tail != nil {
+		fmt.Fprintf(&sb, " tail=%q", ss.tail.key)
 	}
 	var ks []string
 	for k := range ss.Dict {
